@@ -1455,7 +1455,14 @@ def run(chk):
     quick = chk.tier == "quick"
     n_cases = 700 if quick else 3000
     seeds = list(range(12 if quick else 256))
-    chk.rule = ("seven kinds of case, each starting from fresh Cleaners. seam (8%): a text of 2-5 lines glued from pairs (end of a line, "
+    chk.rule = ("eight kinds of case, each starting from fresh Cleaners. conf (6%): FRESH CLEANERS FROM THE SAME CONFIGURATION OBJECTS - a "
+                "hist-like history run by cleaner #1 and then #2, both built from ONE InsightsConfig, ONE rm_conf dict ('patterns' as plain list "
+                "or as {'regex': [...]} with expressions that do not occur literally in the text - character classes, alternation, anchors, "
+                "POSIX classes -, duplicates and blank entries; 'keywords' sorted by no obvious key, padded duplicates), one fqdn string and the "
+                "same no_obfuscate lists / allow-list dicts / content lists, and by #3 built from a deep copy taken before anything was built; "
+                "after construction and after every clean_content / generate_report / clean_file the objects are compared with their state "
+                "before (values WITH types and order, identity of every nested container); #1 = #2 = #3 on outputs, mappings, reports, file; "
+                "the model's answer = the history on the lines that survive redaction (stated by the harness with re / substring). seam (8%): a text of 2-5 lines glued from pairs (end of a line, "
                 "start of the next) that together could look like one item, separated by LF / CRLF / \\x0b / \\x0c, is cleaned as ONE "
                 "string, as the list of its lines, as a file and (30%) as the output of a split=False command; the string result must "
                 "keep the number of line breaks and carry the marker of one input line per line, in order, and equal the model's cleanString "
